@@ -15,7 +15,8 @@ RULE = ('Hypothesis-generated whole production models (E3: 1-3 sources incl. bat
         'lost; distinct = SHA-1 of the canonical spec JSON.')
 ASSUMPTIONS = ['parts are located by reading PartHandler._part/_output, Buffer._buffer, PartBatcher._in_progress_batch, '
                'Sink.collected_parts (anchors of C02)', 'models obey the well-posedness rules W1-W9 of DESIGN 2.7']
-MIX = [('general', 4), ('groups', 3), ('contention', 1), ('buffers', 1), ('batching', 1), ('interrupt', 1)]
+MIX = [('general', 4), ('groups', 3), ('contention', 1), ('buffers', 1), ('batching', 1), ('interrupt', 1), ('rework', 1),
+       ('parallel', 1)]      # not 'values': nested batches are counted top-level by sinks and buffers
 
 
 valid = e3gen.well_posed
@@ -23,7 +24,7 @@ valid = e3gen.well_posed
 
 def phases(tier):
     if tier == 'quick':
-        return [Search('models', lambda: e3gen.specs(MIX), 150, shards=4)]
+        return [Search('models', lambda: e3gen.specs(MIX), 400, shards=4)]
     return [Search('models', lambda: e3gen.specs(MIX), 1500, shards=16)]
 
 
